@@ -15,6 +15,9 @@ Specs: specs/Mail.tla (+ MailGen, MailTrace), specs/Mbox.tla (+ MboxTrace).  Con
    Expected(m) modulo the stated DON'T-CAREs) and MboxTrace (Messages(lines)).  Rejected message
    traces are re-validated with the as-built deviation of the open finding KF-C16-01; only a case
    accepted there is reported as KNOWN-FINDING.
+   Every observation also carries the e-mail clause of C03 (no other suite has an e-mail writer): one unit
+   of the right body type, get_full_text() = that body, and joinok = (get_full_text() == trimmed
+   newline-join of the unit texts) -- conjuncts of Mail!Accept / Mail!Presence, decided by TLC.
 5. The five mail fixtures (incl. the two .msg files, for which no writer exists) are traced against
    the field-presence clause only.
 """
@@ -144,6 +147,13 @@ def _diff_fields(exp, obs):
     if not exp or not isinstance(obs, dict):
         return ["?"]
     hard, soft = [], []
+    if obs.get("joinok") is False:
+        hard.append("joinok (C03 join law for e-mail: get_full_text() != trimmed newline-join of the unit texts)")
+    for k in ("nunits", "utype"):
+        if k in exp and exp[k] != obs.get(k):
+            hard.append(f"{k} (C03 e-mail unit clause)")
+    if "full" in exp and exp["full"] != obs.get("full"):
+        (soft if obs.get("full", [""])[0] == "plainesc" else hard).append("full (get_full_text() is not the body)")
     for k in ("subj", "from", "to", "cc", "bcc", "rt", "date", "mid", "irt", "plain", "html"):
         if exp.get(k) != obs.get(k):
             (soft if k == "plain" and obs.get(k, [""])[0] == "plainesc" else hard).append(k)      # DC4
@@ -493,7 +503,9 @@ def _worker_fixtures(job, wd):
                     "subj": bool(c.subject), "fromaddr": bool(c.from_email.address or c.from_email.name),
                     "date": date_ok, "mid": bool(re.fullmatch(r"<[^<>\s]+@[^<>\s]+>", c.metadata.message_id or "")),
                     "body": bool(c.body_plain or c.body_html), "natt": len(c.attachments), "expnatt": expnatt,
-                    "attok": bool(attok), "twin": (twin_atts is None) or atts_of(c) == twin_atts}})
+                    "attok": bool(attok),
+                    "joinok": bool(c.get_full_text() == "\n".join(u.get_text() for u in c.iterate_units()).strip()),
+                    "twin": (twin_atts is None) or atts_of(c) == twin_atts}})
         except Exception as ex:
             evs.append({"a": "Raised", "exc": _exc(ex)})
         out.append({"ev": evs})
